@@ -460,3 +460,12 @@ func ConstObjOrVar(info *types.Info, e ast.Expr) string {
 	}
 	return ""
 }
+
+// RecvNameOfFunc is the bare receiver type name of a method ("" for a plain function).
+func RecvNameOfFunc(fn *types.Func) string {
+	sig, _ := fn.Type().(*types.Signature)
+	if sig == nil || sig.Recv() == nil {
+		return ""
+	}
+	return RecvName(sig.Recv().Type())
+}
